@@ -48,14 +48,14 @@ func selTail(e ast.Expr) (string, bool) {
 	}
 }
 
-func exprString(e ast.Expr) string {
+func coExprString(e ast.Expr) string {
 	switch x := e.(type) {
 	case *ast.BinaryExpr:
-		return exprString(x.X) + " " + x.Op.String() + " " + exprString(x.Y)
+		return coExprString(x.X) + " " + x.Op.String() + " " + coExprString(x.Y)
 	case *ast.UnaryExpr:
-		return x.Op.String() + exprString(x.X)
+		return x.Op.String() + coExprString(x.X)
 	case *ast.ParenExpr:
-		return "(" + exprString(x.X) + ")"
+		return "(" + coExprString(x.X) + ")"
 	case *ast.BasicLit:
 		return x.Value
 	case *ast.CallExpr:
@@ -94,7 +94,7 @@ func tokensOf(fn *ast.FuncDecl) []string {
 		case *ast.SelectStmt:
 			out = append(out, "select")
 		case *ast.IfStmt:
-			out = append(out, "if:"+exprString(x.Cond))
+			out = append(out, "if:"+coExprString(x.Cond))
 		case *ast.AssignStmt:
 			// right-hand sides first (evaluation order), then the stores
 			for _, r := range x.Rhs {
@@ -146,7 +146,7 @@ func callToken(ce *ast.CallExpr) []string {
 		case "make":
 			if len(ce.Args) == 2 {
 				if _, ok := ce.Args[0].(*ast.ChanType); ok {
-					return []string{"make:chan:" + exprString(ce.Args[1])}
+					return []string{"make:chan:" + coExprString(ce.Args[1])}
 				}
 			}
 			if len(ce.Args) == 1 {
